@@ -54,6 +54,8 @@ for d in sorted(glob.glob(f'{V}/seeded/S*')):
     own = m['property']
     det = [own] + [c for c in det if c != own] if own in det else det
     shown = ", ".join(det) if det else "**none (known miss)**"
+    if m.get('detect_tier'):
+        shown += f" ({m['detect_tier']} tier only)"
     out.append(f'| {name} | {own} | {m.get("needs_to_manifest", "")} | {shown} | {verified(name, det) if det else "known miss"} |')
 out.append('')
 tables = '\n'.join(out)
